@@ -834,6 +834,25 @@ def check_c06(prog, rep, tier, cfg):
                 # the token's own gap holds what the previous token's rule decided: re-deriving it from the input's line breaks would undo a
                 # decided 0 (`Foo(⏎'abc')` -> `Foo( 'abc')`)
                 ok = ret in ("min(arg2.spaces_before,1)",)
+            if not ok:
+                # however it is written (`u16::from(s > 0 || n > 0)`, clamp ..): the reader, evaluated on sample counters, is the function
+                # min(max(blanks, line breaks), 1) for a raw gap and min(blanks, 1) for the token's own gap
+                try:
+                    from table import run_concrete, eval_desc, vdesc, Unknown
+                    tbr = Table(prog, cb, inline=1)
+                    el = "arg2" if cb.kind == "Closure" else "arg1"
+                    okv = True
+                    for sp in (0, 1, 7, 65535):
+                        for nl in (0, 1, 3, 65535):
+                            env = {el + ".spaces_before": sp, el + ".newlines_before": nl}
+                            res, _eff = run_concrete(tbr, env)
+                            val = eval_desc(vdesc(res), env)
+                            val = int(val) if isinstance(val, bool) else val
+                            want = min(max(sp, nl), 1) if raw else min(sp, 1)
+                            okv &= (val == want)
+                    ok = okv
+                except Exception:
+                    ok = False
             rep.check(ok, R, "separation:%s:%s" % (short(b2.npath), "next" if raw else "own"),
                       "%s derives the space %s from %s — for a gap that is still as in the input, the blank count alone is the next line's indentation after a line break, so `a⏎b` (b at column 0) and `a b` format differently"
                       % (short(b2.npath), "after the token (raw gap of the next token)" if raw else "before the token", ret),
